@@ -6,7 +6,10 @@ proofs : coq/theories/C06 (derive_more's DebugTuple/Padded vs core's DebugTuple/
 oracle : the REAL macro in a generated crate: every shape twice with identical definitions (derive_more::Debug /
          std #[derive(Debug)] or a hand-written std builder impl for attribute cases), 11 format specs, byte-for-byte
 tie 1  : Coq model's predicted text (leaf texts measured on the real formatter) vs the real text, both flavours
+         Each value is ONE Coq program term (Model.dval); Model.dm_val / Model.std_val give the two sides, so
+         generate_body_now, std_derive_body, reference_body (hand-written std impl) and known_class are tied on every run
 tie 2  : Coq generate_body vs the real expansion (in-process harness): builder kind, names, fields, finish kind
+tie 3  : Coq generate_bounds vs the where clause of the real expansion (generic items, also with skip / format attributes)
 T-gen  : the four name sites of generate_body (unraw or not) are read off debug.rs on every run and must equal
          Model.current_sites (all unraw since fix 0354bd6); a site losing its unraw() shows up as `tie-name-sites`
          and, on raw-identifier cases, as `raw-ident-name` (run-time text) / `raw-ident-name-literal` (expansion).
@@ -544,6 +547,21 @@ def extra_decision_items(gen, rng, n):
     for k in range(n):
         case = {"items": []}
         name = G.ident(rng.choice(G.RAW_NAMES), True) if rng.random() < 0.3 else G.ident("X%d" % k)
+        if rng.random() < 0.3:
+            # generic items (also with skip / format attributes): exercised for generate_bounds
+            params = ["T", "U"][:rng.randrange(1, 3)]
+            kind = rng.choice(["tuple", "named"])
+            it = gen.struct(case, name, kind, rng.randrange(len(params), 6), [], params, depth=1, p_adt=0)
+            for f in it["fields"]["list"][len(params):]:
+                if rng.random() < 0.4:
+                    f["ty"] = rng.choice([["vec", ["param", "T"]], ["opt", ["param", params[-1]]], ["tup", [["leaf", "i32"], ["param", "T"]]],
+                                          ["box", ["param", "T"]], ["arr", ["param", params[-1]], 2]])
+            gen.add_attrs(it["fields"], p_skip=rng.choice([0, 0.3]), p_fmt=rng.choice([0, 0.3]))
+            bare_some(gen, rng, it["fields"])
+            # every type parameter must still be used by some field: guaranteed by must_use (attributes do not remove fields)
+            case["items"].append(it)
+            out.append(case)
+            continue
         if rng.random() < 0.5:
             kind = rng.choice(["unit", "tuple", "named"])
             it = gen.struct(case, name, kind, rng.randrange(0, 6), [], depth=0, p_adt=0, **({"raw_p": 0.3} if kind == "named" else {}))
@@ -585,12 +603,18 @@ def decision_tie(chk, inproc, cases, sites):
         for (name, fs) in item_units(it):
             exprs.append("generate_body %s %s" % (sites_coq(sites), G.expansion_coq(name, fs)))
     terms = common.coq_eval(["Verif.C06.Model"], exprs, batch=300, tag="c06d")
+    bexprs = []
+    for (_, _, case, it) in work:
+        for (name, fs) in item_units(it):
+            bexprs.append(G.bounds_coq(name, fs))
+    bterms = common.coq_eval(["Verif.C06.Model"], bexprs, batch=300, tag="c06b")
     bad_items = set()
     k = 0
     n = 0
     for (ci, ii, case, it), r in zip(work, resps):
         units = item_units(it)
         mts = terms[k:k + len(units)]
+        bts = bterms[k:k + len(units)]
         k += len(units)
         src = item_source(case, it)
         if "ok" not in r:
@@ -606,6 +630,25 @@ def decision_tie(chk, inproc, cases, sites):
             chk.violation("tie-expansion-shape", {"item": src, "error": repr(e), "expansion": r.get("ok")},
                           "cannot read the real expansion of %s as builder calls: %r" % (src, e), no_input=True)
             continue
+        # generate_bounds: the model's predicates (per struct / variant, in order) vs the where clause of the real expansion
+        inv = {v: kk for kk, v in G.TRAIT_COQ.items()}
+        want_where = []
+        for (name, fs), bt in zip(units, bts):
+            for (j, tr) in bt:
+                want_where.append((G.ty_rs(case, fs["list"][j]["ty"]) + ":derive_more::core::fmt::" + inv[tr]).replace(" ", ""))
+        got_where = [w_.replace(" ", "") for i_ in r["items"] for w_ in i_.get("where", [])]
+        chk.bump("bounds:%s" % ("some" if want_where else "none"))
+        if want_where != got_where:
+            chk.violation("tie-bounds-model", {"item": src, "model": want_where, "real": got_where},
+                          "Coq generate_bounds disagrees with the where clause of the real expansion of %s: model %s, real %s" % (src, want_where, got_where))
+        # oracle (python's own reading): a generic type of a plainly printed field must be bounded by Debug, and a skipped
+        # field's type must not be bounded on its own account
+        for (name, fs) in units:
+            for f in fs["list"]:
+                pred = (G.ty_rs(case, f["ty"]) + ":derive_more::core::fmt::Debug").replace(" ", "")
+                if f["attr"] is None and G.ty_generic(f["ty"]) and pred not in got_where:
+                    chk.violation("missing-debug-bound", {"case": dict(case, values=case.get("values", []), tag=case.get("tag", "extra")), "item": src, "missing": pred},
+                                  "the generic type of a printed field has no Debug bound in the expansion of %s: %s" % (src, pred))
         for (name, fs), rc, mt in zip(units, real, mts):
             n += 1
             mc = model_canon(mt)
@@ -793,15 +836,13 @@ def run(tier, seed, replay):
     jobs = []
     exprs = []
     cur = sites_coq(sites)
-    all_unraw = all(sites.values())
     for ci in live:
         case = cases[ci]
         for vi, vv in enumerate(case["values"]):
-            vdm = G.val_coq(case, leaves, vv["v"], "dm", cur)
-            vsd = G.val_coq(case, leaves, vv["v"], "sd", cur)
-            need_fixed = (not all_unraw) and G.value_has_raw(case, vv["v"])
-            vfx = G.val_coq(case, leaves, vv["v"], "dm", ALL_UNRAW) if need_fixed else None
-            exprs.append("(R %s, R %s, SF %s, %s)" % (vdm, vsd, vdm, "R " + vfx if vfx else "@nil (nat * N * bool)"))
+            # ONE program term; Model.dm_val / Model.std_val are the two sides (generate_body_now at every derive_more node,
+            # std's derive or the hand-written reference on the std side)
+            D = G.dval_coq(case, leaves, vv["v"])
+            exprs.append("(let d := %s in (R (dm_val d), R (std_val d), map (known_class d) TOPS))" % D)
             jobs.append((ci, vi))
     terms = common.coq_eval(["Verif.Base.Chars", "Verif.C06.Model"], exprs, preamble="\n".join(pre), batch=max(8, (len(exprs) + 15) // 16), tag="c06t")
     chk.log("model evaluated on %d values x %d specs x 2 flavours" % (len(jobs), len(G.TOP)))
@@ -832,7 +873,7 @@ def run(tier, seed, replay):
         ex2 = []
         for (ci, vi) in want:
             vv = cases[ci]["values"][vi]
-            ex2.append("(RT %s, RT %s)" % (G.val_coq(cases[ci], leaves, vv["v"], "dm", cur), G.val_coq(cases[ci], leaves, vv["v"], "sd", cur)))
+            ex2.append("(let d := %s in (RT (dm_val d), RT (std_val d)))" % G.dval_coq(cases[ci], leaves, vv["v"]))
         for key, t2 in zip(want, common.coq_eval(["Verif.Base.Chars", "Verif.C06.Model"], ex2, preamble="\n".join(pre), batch=2, tag="c06f")):
             full[key] = t2
 
@@ -840,7 +881,8 @@ def run(tier, seed, replay):
     for (ci, vi), t in zip(jobs, terms):
         case = cases[ci]
         vv = case["values"][vi]
-        mdm, msd, msafe, mfx = t
+        mdm, msd, mkc = t
+        mfx = None
         nfields = G.value_printed_fields(case, vv["v"])
         rootk = G.value_root_kind(case, vv["v"])
         for k, spec in enumerate(G.TOP):
@@ -859,7 +901,7 @@ def run(tier, seed, replay):
             else:
                 pdm = rdm if dm_same else "<model text differs (signature %s); not fetched>" % (flat3(mdm[k]),)
                 psd = rsd if sd_same else "<model text differs (signature %s); not fetched>" % (flat3(msd[k]),)
-            safe = msafe[k] == "true"
+            safe = mkc[k] != "true"         # Model.known_class d c = negb (safeb c (dm_val d))
             rep = {"case": case, "leaves": [list(x) for x in leaves.items], "value_index": vi, "spec": G.TOP_TXT[k],
                    "value_rust": G.val_rs(case, leaves, vv["v"]), "type_rust": G.ty_rs(case, vv["ty"]),
                    "items_rust": [G.item_rs(case, it, True) for it in case["items"]],
@@ -933,7 +975,8 @@ META = {
             "refuted in the model (pretty + any other option on a tuple shape) and the exception class is proved exact; "
             "raw-identifier names are proved to print without r# for the current tree. Each run compiles every generated shape twice (derive_more / std) and compares 11 specs byte-for-byte, "
             "and ties the model's predicted text and builder decisions to the real macro.",
-    "note": "Partial: `{:#x?}`-like configurations on tuple structs/variants differ from std (known finding, no repair at MSRV); "
+    "note": "End-to-end theorem C06_end_to_end: outside known_class (tuple shape + pretty + another option) a program deriving "
+            "derive_more::Debug prints what the std-derived / hand-written-reference twin prints. Partial: `{:#x?}`-like configurations on tuple structs/variants differ from std (known finding, no repair at MSRV); "
             "leaf Debug impls are opaque (texts measured); enums: arm selection trusted.",
     "design_ref": "DESIGN.md section 2 / C06",
 }
